@@ -186,6 +186,9 @@ def _scopes(E):
                 for a in range(n):
                     for b in range(n):
                         yield {"shape": sh, "first": a, "second": b}
+                        if n >= 3 and a != b and (a + 2 * b) % 3 == 0:
+                            # an instance built earlier on the subtree of another node (stale shared state would show)
+                            yield {"shape": sh, "first": a, "second": b, "prior": [1 + (a + b) % (n - 1)]}
                         if n >= 2 and a != b:
                             yield {"shape": sh, "first": a, "second": b, "variant": -1 if (a + b) % 2 else 1 + (a * 7 + b * 3 + n) % 50}
         for _ in range(20 if tier != "thorough" else 200):
@@ -199,6 +202,12 @@ def _scopes(E):
             for _ in range(10):
                 yield {"shape": sh, "first": rng.randrange(n), "second": rng.randrange(n)}
 
+    def prior(mod, nodes, recipe):
+        """history: other LowestCommonAncestor instances built (and used) earlier in the same process on overlapping nodes"""
+        for i in recipe.get("prior", []):
+            other = mod.LowestCommonAncestor(nodes[i])
+            other(nodes[i], nodes[i])
+
     def uni(nodes):
         u = native.Universe()
         u.domains["Node"] = nodes
@@ -211,6 +220,7 @@ def _scopes(E):
             import types
 
             root, nodes = build_tree(shape_of(recipe["shape"]), recipe.get("variant", 0))
+            prior(mod, nodes, recipe)
             stub = types.SimpleNamespace(tree=root)  # the real object is built inside the checked call
             return (lambda self, first, second: getattr(mod.LowestCommonAncestor(self.tree), method)(first, second)), {"self": stub, "first": nodes[recipe["first"]], "second": nodes[recipe["second"]]}, uni(nodes)
         return build
@@ -228,6 +238,8 @@ def _scopes(E):
                         if k == 3 and tier != "thorough" and n > 4:
                             continue
                         yield {"shape": sh, "nodes": list(idx)}
+                        if n >= 3 and k == 2 and idx[0] != idx[1]:
+                            yield {"shape": sh, "nodes": list(idx), "prior": [1 + sum(idx) % (n - 1)]}
                         if n >= 2 and sum(idx) % 4 == 1:
                             yield {"shape": sh, "nodes": list(idx), "variant": 1 + sum(idx) % 5}
 
@@ -236,11 +248,12 @@ def _scopes(E):
 
         mod = native.import_real(M, src_root)
         root, nodes = build_tree(shape_of(recipe["shape"]), recipe.get("variant", 0))
+        prior(mod, nodes, recipe)
         stub = types.SimpleNamespace(tree=root)
         return (lambda self, *ns: mod.LowestCommonAncestor(self.tree)(*ns)), {"self": stub, "nodes": [nodes[i] for i in recipe["nodes"]]}, uni(nodes)
 
     E.registry.scopes[f"{M}:LowestCommonAncestor.__call__"] = Scope(
-        gen_call, build_call, describe="all rooted ordered trees with <= 5 (7) nodes x all node tuples of length 1-3", nontrivial=lambda r: len(set(r["nodes"])) > 1)
+        gen_call, build_call, describe="all rooted ordered trees with <= 5 (7) nodes x all node tuples of length 1-3; for pairs also after another instance was built on a subtree (history)", nontrivial=lambda r: len(set(r["nodes"])) > 1)
 
     def gen_level(tier, rng):
         for n in range(1, 7):
